@@ -158,3 +158,432 @@ Proof.
     + rewrite map_app. cbn [map fst]. rewrite <- app_assoc. exact Hnd.
   - apply NoDup_remove_2 in Hnd. intros F. apply Hnd. apply in_or_app. auto.
 Qed.
+
+(* ---- part 2: canonicalize on such a dict inserts the leaves one by one --------------------------------------------------- *)
+Fixpoint canon_go (sp : bool) (l : list (key * pv)) (cd : list (key * pv)) : herr + list (key * pv) :=
+  match l with
+  | [] => inr cd
+  | (k, x) :: r =>
+      match key_to_path k with
+      | inl e => inl e
+      | inr [] => inl HKeyError
+      | inr [k1] =>
+          match canon sp x with
+          | inl e => inl e
+          | inr nv =>
+              match dget k1 cd with
+              | None => canon_go sp r (dset k1 nv cd)
+              | Some old =>
+                  match merge_c old nv with
+                  | inl e => inl e
+                  | inr m => canon_go sp r (dset k1 m cd)
+                  end
+              end
+          end
+      | inr path =>
+          match canon sp x with
+          | inl e => inl e
+          | inr nv =>
+              match merge_c (PDict cd) (nest path nv) with
+              | inl e => inl e
+              | inr (PDict cd') => canon_go sp r cd'
+              | inr _ => inl HTypeError
+              end
+          end
+      end
+  end.
+
+Lemma canon_dict_eq : forall sp kvs,
+  canon sp (PDict kvs) =
+  match canon_go sp kvs [] with inl e => inl e | inr cd => inr (listify (negb sp) (PDict cd)) end.
+Proof.
+  intros sp kvs. cbn [canon].
+  match goal with |- match ?a with _ => _ end = match ?b with _ => _ end => replace a with b; [reflexivity |] end.
+  generalize (@nil (key * pv)). induction kvs as [| [k x] r IH]; intros cd; [reflexivity |].
+  cbn [canon_go]. destruct (key_to_path k) as [e | [| k1 [| k2 rest]]]; try reflexivity.
+  - destruct (canon sp x); [reflexivity |]. destruct (dget k1 cd); [| apply IH].
+    destruct (merge_c p0 p); [reflexivity | apply IH].
+  - destruct (canon sp x); [reflexivity |].
+    destruct (merge_c (PDict cd) (nest (k1 :: k2 :: rest) p)) as [e | [| | | |]]; try reflexivity. apply IH.
+Qed.
+
+Lemma canon_leaf : forall sp x, is_leaf x = true -> canon sp x = inr x.
+Proof.
+  intros sp x H. destruct x as [| | | [| c l] | [| kv l]]; try discriminate; try reflexivity.
+Qed.
+
+Definition ins (cd : list (key * pv)) (p : list key) (x : pv) : herr + list (key * pv) :=
+  match merge_c (PDict cd) (nest p x) with
+  | inr (PDict cd') => inr cd'
+  | inr _ => inl HTypeError
+  | inl e => inl e
+  end.
+
+Fixpoint build (L : list (list key * pv)) (cd : list (key * pv)) : herr + list (key * pv) :=
+  match L with
+  | [] => inr cd
+  | (p, x) :: r => match ins cd p x with inl e => inl e | inr cd' => build r cd' end
+  end.
+
+Definition leaf_entry_ok (px : list key * pv) : Prop :=
+  Forall key_ok (fst px) /\ fst px <> [] /\ is_leaf (snd px) = true.
+
+Lemma canon_go_build : forall sp L cd, Forall leaf_entry_ok L ->
+  canon_go sp (map fmt_entry L) cd = build L cd.
+Proof.
+  induction L as [| [p x] r IH]; intros cd H; [reflexivity |].
+  inv H. destruct H2 as (Hok & Hne & Hleaf). cbn [fst snd] in *.
+  cbn [map canon_go build]. unfold fmt_entry at 1. cbn [fst snd key_to_path].
+  rewrite (parse_format p Hok). rewrite (canon_leaf sp x Hleaf).
+  destruct p as [| k1 [| k2 rest]]; [congruence | |].
+  - unfold ins. cbn [nest merge_c]. destruct (dget k1 cd) eqn:E.
+    + destruct (merge_c p x); [reflexivity |]. apply IH. assumption.
+    + apply IH. assumption.
+  - unfold ins. destruct (merge_c (PDict cd) (nest (k1 :: k2 :: rest) x)) as [e | [| | | |]]; try reflexivity.
+    apply IH. assumption.
+Qed.
+
+(* ---- part 3: inserting the leaves of v in order rebuilds v with every non-empty list as an int-keyed dict ------------------ *)
+Fixpoint index_from (i : Z) (l : list pv) : list (key * pv) :=
+  match l with [] => [] | x :: r => (KInt i, x) :: index_from (i + 1) r end.
+
+Fixpoint D (v : pv) : pv :=
+  match v with
+  | PDict kvs => PDict (map (fun kv => (fst kv, D (snd kv))) kvs)
+  | PList l => match l with [] => PList [] | _ => PDict (index_from 0 (map D l)) end
+  | _ => v
+  end.
+
+Lemma D_leaf : forall v, is_leaf v = true -> D v = v.
+Proof. intros v H. destruct v as [| | | [| c l] | [| kv l]]; try discriminate; reflexivity. Qed.
+
+Lemma dget_app_last : forall k x l, ~ In k (map fst l) -> dget k (l ++ [(k, x)]) = Some x.
+Proof.
+  induction l as [| [k0 v0] r IH]; cbn; intros H.
+  - rewrite key_eqb_refl. reflexivity.
+  - destruct (key_eqb k k0) eqn:E; [apply key_eqb_eq in E; subst; exfalso; auto |]. auto.
+Qed.
+
+Lemma dset_app_last : forall k x y l, ~ In k (map fst l) -> dset k y (l ++ [(k, x)]) = l ++ [(k, y)].
+Proof.
+  induction l as [| [k0 v0] r IH]; cbn; intros H.
+  - rewrite key_eqb_refl. reflexivity.
+  - destruct (key_eqb k k0) eqn:E; [apply key_eqb_eq in E; subst; exfalso; auto |]. rewrite IH; auto.
+Qed.
+
+Lemma ins_fresh : forall cd k p x, ~ In k (map fst cd) -> ins cd (k :: p) x = inr (cd ++ [(k, nest p x)]).
+Proof.
+  intros cd k p x H. unfold ins. cbn [nest merge_c]. rewrite (dget_notin _ _ H), (dset_fresh _ _ _ H). reflexivity.
+Qed.
+
+(* merging a dict into a dict gives a dict or an error *)
+Lemma merge_dd_shape : forall a b, match merge_c (PDict a) (PDict b) with inr (PDict _) => True | inr _ => False | inl _ => True end.
+Proof.
+  intros a b. cbn [merge_c]. revert a. induction b as [| [k v] r IH]; intros a; [exact I |].
+  destruct (dget k a); [| apply IH]. destruct (merge_c p v); [exact I | apply IH].
+Qed.
+
+Lemma merge_single : forall a k v,
+  merge_c (PDict a) (PDict [(k, v)]) =
+  match dget k a with
+  | None => inr (PDict (dset k v a))
+  | Some old => match merge_c old v with inl e => inl e | inr m => inr (PDict (dset k m a)) end
+  end.
+Proof. intros. cbn [merge_c]. destruct (dget k a); [| reflexivity]. destruct (merge_c p v); reflexivity. Qed.
+
+Lemma ins_under : forall cd0 k sub p x, ~ In k (map fst cd0) -> p <> [] ->
+  ins (cd0 ++ [(k, PDict sub)]) (k :: p) x =
+  match ins sub p x with inr sub' => inr (cd0 ++ [(k, PDict sub')]) | inl e => inl e end.
+Proof.
+  intros cd0 k sub p x H Hp. destruct p as [| k' p']; [congruence |].
+  unfold ins. change (nest (k :: k' :: p') x) with (PDict [(k, nest (k' :: p') x)]).
+  rewrite merge_single, (dget_app_last _ _ _ H).
+  pose proof (merge_dd_shape sub [(k', nest p' x)]) as S.
+  change (PDict [(k', nest p' x)]) with (nest (k' :: p') x) in S.
+  destruct (merge_c (PDict sub) (nest (k' :: p') x)) as [e | m']; [reflexivity |].
+  destruct m'; try contradiction. rewrite (dset_app_last _ _ _ _ H). reflexivity.
+Qed.
+
+Lemma build_under : forall L cd0 k sub, ~ In k (map fst cd0) -> Forall (fun px => fst px <> []) L ->
+  build (map (prepend [k]) L) (cd0 ++ [(k, PDict sub)]) =
+  match build L sub with inr sub' => inr (cd0 ++ [(k, PDict sub')]) | inl e => inl e end.
+Proof.
+  induction L as [| [p x] r IH]; intros cd0 k sub H Hne; [reflexivity |].
+  inv Hne. cbn [fst] in *. cbn [map build]. unfold prepend at 1. cbn [fst snd app].
+  rewrite (ins_under cd0 k sub p x H H2). destruct (ins sub p x); [reflexivity |]. apply IH; assumption.
+Qed.
+
+Lemma build_fresh : forall L cd0 k, ~ In k (map fst cd0) -> L <> [] -> Forall (fun px => fst px <> []) L ->
+  build (map (prepend [k]) L) cd0 =
+  match build L [] with inr sub => inr (cd0 ++ [(k, PDict sub)]) | inl e => inl e end.
+Proof.
+  intros L cd0 k H Hn Hne. destruct L as [| [p x] r]; [congruence |]. inv Hne. cbn [fst] in *.
+  destruct p as [| k' p']; [congruence |].
+  cbn [map build]. unfold prepend at 1. cbn [fst snd app].
+  rewrite (ins_fresh cd0 k (k' :: p') x H). rewrite (ins_fresh [] k' p' x) by (intros []).
+  cbn [nest app]. apply build_under; assumption.
+Qed.
+
+Lemma build_app : forall L1 L2 cd,
+  build (L1 ++ L2) cd = match build L1 cd with inr cd' => build L2 cd' | inl e => inl e end.
+Proof.
+  induction L1 as [| [p x] r IH]; intros L2 cd; [reflexivity |].
+  cbn [app build]. destruct (ins cd p x); [reflexivity | apply IH].
+Qed.
+
+(* a value has at least one leaf; below a non-leaf root no leaf sits at the root path *)
+Lemma LV_nonempty : forall v path, LV v path <> [].
+Proof.
+  apply (pv_ind' (fun v => forall path, LV v path <> [])); intros; try (rewrite LV_leaf by reflexivity; discriminate).
+  - destruct l as [| c r]; [rewrite LV_leaf by reflexivity; discriminate |].
+    rewrite LV_list by discriminate. cbn [LVl]. inv H. intros F. apply app_eq_nil in F as [F _]. eapply H2; eauto.
+  - destruct kvs as [| [k c] r]; [rewrite LV_leaf by reflexivity; discriminate |].
+    rewrite LV_dict by discriminate. cbn [LVd]. inv H. intros F. apply app_eq_nil in F as [F _]. eapply H2; eauto.
+Qed.
+
+Lemma LV_paths_nonempty : forall v, is_leaf v = false -> Forall (fun px => fst px <> []) (LV v []).
+Proof.
+  intros v H. apply Forall_forall. intros [p x] Hin. cbn [fst]. unfold LV in Hin. apply filter_In in Hin as [Hin Hl].
+  apply nodes_iff in Hin as (s & -> & Hat). cbn [app]. intros ->. inv Hat. unfold leafp in Hl. cbn [snd] in Hl. congruence.
+Qed.
+
+Definition rebuilds (c : pv) : Prop :=
+  wfv c -> is_leaf c = false -> exists kd, D c = PDict kd /\ build (LV c []) [] = inr kd.
+
+Lemma child_build : forall c k cd0, ~ In k (map fst cd0) -> wfv c -> rebuilds c ->
+  build (LV c [k]) cd0 = inr (cd0 ++ [(k, D c)]).
+Proof.
+  intros c k cd0 H Hw R. destruct (is_leaf c) eqn:L.
+  - rewrite LV_leaf by assumption. cbn [build]. rewrite ins_fresh by assumption. cbn [nest]. rewrite D_leaf by assumption. reflexivity.
+  - destruct (R Hw L) as (kd & HD & HB).
+    change [k] with ([k] ++ []). rewrite LV_prefix.
+    rewrite build_fresh; auto using LV_nonempty, LV_paths_nonempty. rewrite HB, HD. reflexivity.
+Qed.
+
+Lemma LVd_build : forall kvs cd0, NoDup (map fst cd0 ++ map fst kvs) ->
+  Forall (fun kv => wfv (snd kv) /\ rebuilds (snd kv)) kvs ->
+  build (LVd [] kvs) cd0 = inr (cd0 ++ map (fun kv => (fst kv, D (snd kv))) kvs).
+Proof.
+  induction kvs as [| [k c] r IH]; intros cd0 Hnd H; cbn [LVd map build]; [rewrite app_nil_r; reflexivity |].
+  inv H. destruct H2 as [Hw R]. cbn [fst snd app] in *.
+  assert (~ In k (map fst cd0)) as Hk.
+  { apply NoDup_remove_2 in Hnd. intros F. apply Hnd. apply in_or_app. auto. }
+  rewrite build_app, (child_build c k cd0 Hk Hw R). rewrite IH; auto.
+  - rewrite <- app_assoc. reflexivity.
+  - rewrite map_app. cbn [map fst]. rewrite <- app_assoc. exact Hnd.
+Qed.
+
+Lemma LVl_build : forall l i0 cd0, Forall (fun k => exists j, k = KInt j /\ j < i0) (map fst cd0) ->
+  Forall (fun c => wfv c /\ rebuilds c) l ->
+  build (LVl [] l i0) cd0 = inr (cd0 ++ index_from i0 (map D l)).
+Proof.
+  induction l as [| c r IH]; intros i0 cd0 Hk H; cbn [LVl map index_from build]; [rewrite app_nil_r; reflexivity |].
+  inv H. destruct H2 as [Hw R]. cbn [app].
+  assert (~ In (KInt i0) (map fst cd0)) as Hn.
+  { intros F. rewrite Forall_forall in Hk. destruct (Hk _ F) as (j & E & Hlt). inv E. lia. }
+  rewrite build_app, (child_build c (KInt i0) cd0 Hn Hw R). rewrite IH; auto.
+  - rewrite <- app_assoc. reflexivity.
+  - rewrite map_app. cbn [map fst]. apply Forall_app. split.
+    + eapply Forall_impl; [| exact Hk]. intros a (j & E & Hlt). exists j. split; [assumption | lia].
+    + constructor; [| constructor]. exists i0. split; [reflexivity | lia].
+Qed.
+
+Theorem rebuilds_all : forall v, rebuilds v.
+Proof.
+  apply pv_ind'.
+  - intros _ H. discriminate.
+  - intros z _ H. discriminate.
+  - intros s _ H. discriminate.
+  - intros l IH Hw Hl. destruct l as [| c r]; [discriminate |].
+    inv Hw. eexists. split; [reflexivity |]. rewrite LV_list by discriminate.
+    rewrite (LVl_build (c :: r) 0 []); [reflexivity | constructor |].
+    rewrite Forall_forall in *. intros x Hx. split; [apply H0 | apply IH]; assumption.
+  - intros kvs IH Hw Hl. destruct kvs as [| kv r]; [discriminate |].
+    inv Hw. eexists. split; [reflexivity |]. rewrite LV_dict by discriminate.
+    rewrite (LVd_build (kv :: r) []); [reflexivity | exact H0 |].
+    rewrite Forall_forall in *. intros x Hx. split; [apply H1 | apply IH]; assumption.
+Qed.
+
+(* ---- part 4: the final listify pass turns the int-keyed dicts that stand for lists back into lists ------------------------ *)
+(* the dicts canonicalize would turn into a list: non-empty, all keys ints, and the keys are exactly 0..n-1 *)
+Definition listable (kvs : list (key * pv)) : bool :=
+  match kvs with
+  | [] => false
+  | _ =>
+      match int_keys kvs with
+      | None => false
+      | Some zs =>
+          let s := sort_by_key zs in
+          let mn := match s with (z, _) :: _ => z | [] => 0 end in
+          let mx := match rev s with (z, _) :: _ => z | [] => 0 end in
+          (mn =? 0) && (mx =? Z.of_nat (length kvs) - 1)
+      end
+  end.
+
+Lemma try_listify_keep : forall kvs, listable kvs = false -> try_listify false kvs = PDict kvs.
+Proof.
+  intros kvs H. unfold try_listify, listable in *. destruct kvs as [| kv r]; [reflexivity |].
+  destruct (int_keys (kv :: r)); [| reflexivity]. cbv zeta in H. cbn [orb]. rewrite H. reflexivity.
+Qed.
+
+Lemma listable_needs_int_keys : forall kvs, listable kvs = true -> Forall (fun kv => exists z, fst kv = KInt z) kvs.
+Proof.
+  intros kvs H. unfold listable in H. destruct kvs as [| kv r]; [discriminate |].
+  destruct (int_keys (kv :: r)) eqn:E; [| discriminate]. clear H. revert l E.
+  induction (kv :: r) as [| [k v] t IH]; intros l E; [constructor |].
+  cbn [int_keys] in E. destruct k; [discriminate |]. destruct (int_keys t) eqn:Et; [| discriminate].
+  constructor; [cbn; eauto | eapply IH; reflexivity].
+Qed.
+
+Fixpoint zindex (i : Z) (l : list pv) : list (Z * pv) :=
+  match l with [] => [] | x :: r => (i, x) :: zindex (i + 1) r end.
+
+Lemma int_keys_index : forall l i, int_keys (index_from i l) = Some (zindex i l).
+Proof. induction l as [| x r IH]; intros i; cbn; [reflexivity |]. rewrite IH. reflexivity. Qed.
+
+Lemma sort_zindex : forall l i, sort_by_key (zindex i l) = zindex i l.
+Proof.
+  induction l as [| x r IH]; intros i; [reflexivity |].
+  cbn [zindex]. unfold sort_by_key in *. cbn [fold_right fst snd]. rewrite IH.
+  destruct r as [| y r']; [reflexivity |]. cbn [zindex insert_sorted].
+  replace (i <=? i + 1) with true by (symmetry; apply Z.leb_le; lia). reflexivity.
+Qed.
+
+Lemma map_snd_zindex : forall l i, map snd (zindex i l) = l.
+Proof. induction l as [| x r IH]; intros i; cbn; [reflexivity |]. rewrite IH. reflexivity. Qed.
+
+Lemma length_index_from : forall l i, length (index_from i l) = length l.
+Proof. induction l as [| x r IH]; intros i; cbn; [reflexivity |]. rewrite IH. reflexivity. Qed.
+
+Lemma last_zindex : forall l i, l <> [] ->
+  match rev (zindex i l) with (z, _) :: _ => z | [] => 0 end = i + Z.of_nat (length l) - 1.
+Proof.
+  induction l as [| x r IH]; intros i H; [congruence |].
+  destruct r as [| y r'].
+  - cbn. lia.
+  - cbn [zindex rev]. specialize (IH (i + 1) ltac:(discriminate)). cbn [zindex rev] in IH.
+    destruct (rev (zindex (i + 1 + 1) r') ++ [(i + 1, y)]) as [| [z w] t] eqn:E.
+    + apply app_eq_nil in E as [_ E]. discriminate.
+    + cbn [app]. rewrite IH. cbn [length]. lia.
+Qed.
+
+Lemma try_listify_index : forall l, l <> [] -> try_listify false (index_from 0 l) = PList l.
+Proof.
+  intros l H. unfold try_listify. destruct l as [| x r]; [congruence |].
+  cbn [index_from]. change ((KInt 0, x) :: index_from (0 + 1) r) with (index_from 0 (x :: r)).
+  rewrite int_keys_index, sort_zindex. cbn [orb].
+  rewrite (last_zindex (x :: r) 0 H), length_index_from. cbn [zindex].
+  replace (0 =? 0) with true by reflexivity.
+  replace (0 + Z.of_nat (length (x :: r)) - 1 =? Z.of_nat (length (x :: r)) - 1) with true by (symmetry; apply Z.eqb_eq; lia).
+  cbn [andb]. change ((0, x) :: zindex (0 + 1) r) with (zindex 0 (x :: r)). rewrite map_snd_zindex. reflexivity.
+Qed.
+
+Lemma map_index_from : forall (f : pv -> pv) l i,
+  map (fun kv => (fst kv, f (snd kv))) (index_from i l) = index_from i (map f l).
+Proof. induction l as [| x r IH]; intros i; cbn; [reflexivity |]. rewrite IH. reflexivity. Qed.
+
+(* the values of the theorem: distinct admissible keys, and no dict that canonicalize would take for a list *)
+Inductive flat_ok : pv -> Prop :=
+| fo_none : flat_ok PNone
+| fo_int : forall z, flat_ok (PInt z)
+| fo_str : forall s, flat_ok (PStr s)
+| fo_list : forall l, Forall flat_ok l -> flat_ok (PList l)
+| fo_dict : forall kvs, NoDup (map fst kvs) -> Forall (fun kv => key_ok (fst kv)) kvs -> listable kvs = false ->
+    Forall (fun kv => flat_ok (snd kv)) kvs -> flat_ok (PDict kvs).
+
+Lemma flat_ok_wfv : forall v, flat_ok v -> wfv v.
+Proof.
+  apply (pv_ind' (fun v => flat_ok v -> wfv v)); intros; try constructor.
+  - inv H0. rewrite Forall_forall in *. auto.
+  - inv H0. assumption.
+  - inv H0. rewrite Forall_forall in *. auto.
+Qed.
+
+Lemma listify_D : forall v, flat_ok v -> listify false (D v) = v.
+Proof.
+  apply (pv_ind' (fun v => flat_ok v -> listify false (D v) = v)); try reflexivity.
+  - intros l IH H. inv H. destruct l as [| c r]; [reflexivity |].
+    cbn [D]. cbn [listify]. rewrite map_index_from, map_map.
+    replace (map (fun x => listify false (D x)) (c :: r)) with (c :: r).
+    + apply try_listify_index. discriminate.
+    + symmetry. rewrite <- (map_id (c :: r)) at 2. apply map_ext_in. intros a Ha.
+      rewrite Forall_forall in *. auto.
+  - intros kvs IH H. inv H. cbn [D listify]. rewrite map_map. cbn [fst snd].
+    replace (map (fun x => (fst x, listify false (D (snd x)))) kvs) with kvs.
+    + apply try_listify_keep. assumption.
+    + symmetry. rewrite <- (map_id kvs) at 2. apply map_ext_in. intros [k c] Ha. cbn [fst snd].
+      rewrite Forall_forall in *. f_equal. apply (IH (k, c) Ha). apply (H4 (k, c) Ha).
+Qed.
+
+Lemma at_path_keys_ok : forall v p x, flat_ok v -> at_path v p x -> Forall key_ok p.
+Proof.
+  intros v p x Hf H. induction H; [constructor | |].
+  - inv Hf. rewrite Forall_forall in H3, H5. constructor; [apply (H3 (k, c) H) | apply IHat_path; apply (H5 (k, c) H)].
+  - inv Hf. rewrite Forall_forall in H2. constructor; [reflexivity | apply IHat_path; apply H2; eapply nth_error_In; eauto].
+Qed.
+
+Lemma NoDup_map_fst_filter : forall (f : list key * pv -> bool) l, NoDup (map fst l) -> NoDup (map fst (filter f l)).
+Proof.
+  induction l as [| a r IH]; cbn; intros H; [constructor |]. inv H.
+  destruct (f a); cbn; auto. constructor; auto. intros F. apply H2.
+  apply in_map_iff in F as (b & E & Hb). apply filter_In in Hb as [Hb _]. rewrite <- E. apply in_map. assumption.
+Qed.
+
+Lemma NoDup_map_inj_on : forall (A B : Type) (g : A -> B) (l : list A),
+  (forall a b, In a l -> In b l -> g a = g b -> a = b) -> NoDup l -> NoDup (map g l).
+Proof.
+  induction l as [| a r IH]; cbn; intros Hinj H; [constructor |]. inv H. constructor.
+  - intros F. apply in_map_iff in F as (b & E & Hb). assert (b = a) by (apply Hinj; auto). subst. contradiction.
+  - apply IH; auto.
+Qed.
+
+Theorem canon_flatten : forall v, flat_ok v -> canon true (flatten false v) = inr v.
+Proof.
+  intros v Hf. destruct (is_leaf v) eqn:L.
+  - unfold flatten. rewrite L. apply canon_leaf. assumption.
+  - pose proof (flat_ok_wfv v Hf) as Hw.
+    assert (forall px, In px (LV v []) -> Forall key_ok (fst px)) as Hkeys.
+    { intros [p x] Hin. unfold LV in Hin. apply filter_In in Hin as [Hin _].
+      apply nodes_iff in Hin as (s & -> & Hat). cbn [fst app]. eapply at_path_keys_ok; eauto. }
+    assert (Forall leaf_entry_ok (LV v [])) as Hent.
+    { apply Forall_forall. intros px Hin. split; [auto |]. split.
+      - pose proof (LV_paths_nonempty v L) as Hne. rewrite Forall_forall in Hne. auto.
+      - unfold LV in Hin. apply filter_In in Hin as [_ Hl]. exact Hl. }
+    rewrite flatten_nonleaf by assumption.
+    rewrite flat_fold_map.
+    + cbn [app]. rewrite canon_dict_eq, (canon_go_build true _ [] Hent).
+      destruct (rebuilds_all v Hw L) as (kd & HD & HB). rewrite HB. cbn [negb]. rewrite <- HD.
+      rewrite listify_D by assumption. reflexivity.
+    + apply LV_paths_nonempty. assumption.
+    + cbn [map app]. rewrite <- (map_map fst (fun p => KStr (format p))).
+      apply NoDup_map_inj_on.
+      * intros a b Ha Hb E. inv E.
+        apply in_map_iff in Ha as (pa & <- & Ha). apply in_map_iff in Hb as (pb & Eb & Hb). subst b.
+        apply format_injective; auto.
+      * apply NoDup_map_fst_filter. apply nodes_nodup. assumption.
+Qed.
+
+(* non-vacuity: a value with lists in dicts in lists, a key with a delimiter, a digit-only key, an int key, empty containers *)
+Definition example_value : pv :=
+  PDict [ (KStr [97%N], PList [PDict [(KStr [99%N], PList [PInt 1; PInt 2])]; PDict []; PList [PNone]]);
+          (KStr [98%N; 46%N; 99%N], PStr [120%N]);
+          (KInt 0, PNone);
+          (KStr [48%N], PList []);
+          (KInt (-3), PDict [(KInt 1, PInt 7)]) ].
+
+Example example_flat_ok : flat_ok example_value.
+Proof.
+  unfold example_value.
+  repeat (first [ apply fo_none | apply fo_int | apply fo_str | apply fo_list | apply fo_dict
+                | apply Forall_nil | apply Forall_cons | reflexivity
+                | (apply NoDup_cons; [cbn; intuition discriminate |]) | apply NoDup_nil ]).
+Qed.
+
+Example example_round_trip : canon true (flatten false example_value) = inr example_value.
+Proof. vm_compute. reflexivity. Qed.
+
+(* and the documented exception: a dict whose keys are 0..n-1 comes back as a list *)
+Example listable_dict_becomes_list :
+  canon true (flatten false (PDict [(KStr [97%N], PDict [(KInt 1, PInt 5); (KInt 0, PInt 6)])])) =
+  inr (PDict [(KStr [97%N], PList [PInt 6; PInt 5])]).
+Proof. vm_compute. reflexivity. Qed.
